@@ -237,8 +237,12 @@ func ZzvC03Loop() {
 			if checkParent {
 				fits = zzverif.And(fits, held+p.req <= maxP)
 			}
+			if !status.IsSuccess() {
+				zzverif.Reach("rejected")
+			}
 			zzverif.Assert(zzverif.Iff(status.IsSuccess(), fits), "a pod is admitted exactly when used plus its request stays within the limit of its quota (and of the parent when parent checking is on)")
 			if status.IsSuccess() {
+				zzverif.Reach("admitted")
 				pl.Reserve(context.TODO(), nil, p.pod, "node")
 				p.reserved = true
 			}
